@@ -107,7 +107,12 @@ def main():
     # the signature verifier is asynchronous: count requests / finished collections / collected results
     # so that the simulator can wait for its quiescence without consuming anything
     rewrite("chain/signVerifier.go", [
-        (r"(?m)^(type SignVerifier struct \{)$", r"\1\n\tverifReq, verifDone, verifTaken atomic.Int64", 1),
+        (r"(?m)^(type SignVerifier struct \{)$", r"\1\n\tverifReq, verifDone, verifTaken, verifJobs, verifGot atomic.Int64", 1),
+        # per-transaction jobs handed to the workers / results the collector took: when they differ at
+        # stop time, workers are still parked on results nobody will take (only a defective collector
+        # leaves that behind) and closing the channels would panic in a goroutine of the code under test
+        (r"(?m)^(\s*)(errs := make\(\[\]error, txLen, txLen\))$", r"\1sv.verifJobs.Add(int64(txLen))\n\1\2", -1),
+        (r"(?m)^(\s*)(case result := <-sv\.doneCh:)$", r"\1\2\n\1\tsv.verifGot.Add(1)", -1),
         (r"(?m)^(func \(sv \*SignVerifier\) RequestVerifyTxs\(txlist \*types\.TxList\) \{)$", r"\1\n\tsv.verifReq.Add(1)", 1),
         (r"(?m)^(\s*)(sv\.resultCh <- &VerifyResult\{.*\})$", r"\1sv.verifDone.Add(1)\n\1\2", 2),
         (r"(?m)^(\s*)(case res := <-sv\.resultCh:)$", r"\1\2\n\1\tsv.verifTaken.Add(1)", 1),
